@@ -24,14 +24,15 @@ def selections(rng, names):
     return out
 
 
-def run_case(ctx, rep, spec, variables, limit, model, path=None, P=None, start=None):
+def run_case(ctx, rep, spec, variables, limit, model, path=None, P=None, start=None, cli=False):
     from amr_kitchen.colander.colander import Colander
     if path is None:
         path = ctx.newdir("c05in_")
         plotgen.materialize(spec, path)
         P = oracle.parse(path)
     out = ctx.newdir("c05out_")
-    case = {"spec": spec, "variables": variables, "limit": limit}
+    case = {"spec": spec, "variables": variables, "limit": limit, "cli": cli}
+    if cli: rep.count("console-script")
     names = dedup_names(spec["fields"])
     nlev_in = len(spec["levels"])
     L = nlev_in - 1 if limit is None else limit
@@ -40,11 +41,18 @@ def run_case(ctx, rep, spec, variables, limit, model, path=None, P=None, start=N
     else:
         kept_names = [v for v in variables if v in names]; kept = [names[v] for v in kept_names]
     feats = plotgen.describe(spec)
-    rep.case({"s": spec, "v": variables, "l": limit}, nontrivial=(len(feats) >= 2 or variables != ["all"]))
+    rep.case({"s": spec, "v": variables, "l": limit, "cli": cli}, nontrivial=(len(feats) >= 2 or variables != ["all"]))
     rep.count(f"kept:{min(len(kept), 4)}"); rep.count(f"limit:{limit}")
     try:
         with alarm(120), quiet(), pools.controlled(start=start):
-            Colander(plotfile=path, limit_level=limit, output=out, variables=list(variables)).strain()
+            if cli:
+                from .. import tools
+                tools.colander_cli(path, out, variables, limit)
+            else:
+                Colander(plotfile=path, limit_level=limit, output=out, variables=list(variables)).strain()
+    except SystemExit as e:
+        rep.fail(f"the colander console script exited ({e.code}) on a valid invocation", case)
+        return
     except Exception as e:
         rep.fail(f"colander raised {type(e).__name__}: {e}", case)
         return
@@ -120,11 +128,11 @@ def run(ctx, rep, model=True):
         for j, v in enumerate(sels):
             limit = [None, 0, nlev - 1, max(0, nlev - 2)][j % 4]
             start = [None, pools.order_reversed][j % 2]
-            run_case(ctx, rep, spec, v, limit, model, path, P, start)
+            run_case(ctx, rep, spec, v, limit, model, path, P, start, cli=(j % 4 == 1 and i % 2 == 0))
         if len(rep.violations) >= 10:
             return
 
 
 def replay(ctx, rep, obj, model=True):
     c = obj["case"]
-    run_case(ctx, rep, c["spec"], c["variables"], c["limit"], model)
+    run_case(ctx, rep, c["spec"], c["variables"], c["limit"], model, cli=c.get("cli", False))
